@@ -285,7 +285,7 @@ class SourceFile:
                             ok = False
                     if ok:
                         cands.append(it)
-                elif it.name == rest:
+                elif it.name == rest or (kw.endswith('!') and rest == ''):
                     cands.append(it)
             if len(cands) > 1 and part is not parts[-1]:
                 # several impl blocks with the same header: keep the one(s) that contain the rest of the path
